@@ -245,6 +245,16 @@ impl ParseState {
                 Item::ArrayOfTables(ref mut array) => {
                     debug_assert!(!array.is_empty());
 
+                    // Dotted keys cannot reach into the elements of an array of tables, those are
+                    // defined by their `[[header]]`s.  When the array is the last segment,
+                    // `on_keyval` reports the error against the leaf key.
+                    if dotted && i + 1 != path.len() {
+                        return Err(CustomError::DuplicateKey {
+                            key: key.get().into(),
+                            table: None,
+                        });
+                    }
+
                     let index = array.len() - 1;
                     let last_child = array.get_mut(index).unwrap();
 
